@@ -439,7 +439,7 @@ pub fn c01(ctx: &Ctx) -> Report {
     fill_report(ctx, &mut rep, &st, n);
     rep.set("small_regime_cases", n_small as u64);
     rep.set("large_regime_cases", n_large as u64);
-    rep.set("payload_lengths_small", format!("0..={max_len}, all chunkings (compositions) x 8 size-line decorations x trailing garbage"));
+    rep.set("payload_lengths_small", format!("0..={max_len}, all chunkings (compositions) x 9 size-line decorations x trailing garbage"));
     rep.set("cut_bound_completed", max_cut_bound_small as u64);
     rep.set("exhaustive", st.capped_cases == 0);
     rep.set(
@@ -672,6 +672,10 @@ pub fn c19(ctx: &Ctx) -> Report {
         garbage: false,
         corrupt: None,
     });
+    // complete chunks of exactly 64 KiB / 128 KiB followed by a pause, read with buffers larger than the chunk
+    for n in [65536usize, 131072] {
+        wires.push(WireSpec { framing: Framing::Chunked, len: n + 1, chunks: vec![n, 1], deco: Deco::Plain, garbage: false, corrupt: None });
+    }
     for w in wires {
         let (total, body_start) = wire_len(&w);
         let large = w.len > 1000;
@@ -722,7 +726,7 @@ pub fn c19(ctx: &Ctx) -> Report {
     // the large wire with read(1) would be 70000 deep: replace 1 by 4096 there
     for (c, _) in cases.iter_mut() {
         if c.wire.len > 1000 {
-            c.sizes = vec![4096, 65536, 200000];
+            c.sizes = vec![4096, 65536, 200000, 300000];
         }
     }
     let (st, n) = run_cases(ctx, cases);
